@@ -52,9 +52,14 @@ def effectful(name, result_kind='val', may_raise=('Exception',), log=True, havoc
 def havoc_preexisting(ex, st, keep=()):
   """Arbitrary user code ran: every field / container content of objects that existed before this activation may
   have changed; objects allocated by the verified activation (refs >= ALLOC_BASE) are unreachable for it, unless they
-  were stored into a pre-existing object (not tracked: escape analysis is the contract author's obligation)."""
+  were stored into a pre-existing object (not tracked: escape analysis is the contract author's obligation).
+
+  keep: framework-private (class, field) slots user code never writes (frame assumption); the *contents* of the containers
+  stored in private slots are preserved as well."""
   from pyvc.state import ALLOC_BASE
   r = z3.Int('hp_r')
+  before = dict(st.heap)
+  container_keys = [('list', 'len'), ('list', 'items'), ('dict', 'dom'), ('dict', 'val'), ('dict', 'keys')]
   for key in list(st.heap):
     if key in keep:
       continue
@@ -64,3 +69,20 @@ def havoc_preexisting(ex, st, keep=()):
     st.axiom(z3.ForAll([r], z3.Implies(r >= ALLOC_BASE, z3.Select(new, r) == z3.Select(old, r))))
     if old.sort().range() == z3.IntSort() and key[1] not in ('len',):
       st.axiom(z3.ForAll([r], z3.Implies(r < ALLOC_BASE, z3.And(z3.Select(new, r) >= 0))))
+  # contents of private containers survive
+  for (cname, fname) in keep:
+    kind = ex.ctx.registry.fields.get((cname, fname))
+    if kind is None or kind.tag not in ('list', 'dict', 'set', 'tuple'):
+      continue
+    slot = before.get((cname, fname))
+    if slot is None:
+      continue
+    cont = z3.Select(slot, r)
+    for ck in container_keys:
+      if ck in before and not before[ck].eq(st.heap[ck]):
+        st.axiom(z3.ForAll([r], z3.Select(st.heap[ck], cont) == z3.Select(before[ck], cont)))
+    if kind.tag in ('dict', 'set') and ('dict', 'keys') in before:
+      kl = z3.Select(before[('dict', 'keys')], cont)
+      for ck in container_keys[:2]:
+        if ck in before and not before[ck].eq(st.heap[ck]):
+          st.axiom(z3.ForAll([r], z3.Select(st.heap[ck], kl) == z3.Select(before[ck], kl)))
